@@ -39,6 +39,13 @@ def main():
     import warnings
 
     warnings.simplefilter("ignore")
+    # this process is the zygote of every forked worker: import the library under test (and IPython, which
+    # dds imports on its first evaluation) once here; no dds API is ever called in this process itself
+    try:
+        import dds  # noqa: F401
+        import IPython  # noqa: F401
+    except ImportError:
+        pass
     pid = a.pid.upper()
     mod = importlib.import_module("checks.%s" % pid.lower())
     t0 = time.time()
